@@ -15,6 +15,7 @@ Import ListNotations.
 Require Import Gram.Model.Term Gram.Model.Token Gram.Gen.TokenTables Gram.Model.Tokenizer Gram.Proofs.TokenizerProofs.
 Require Import Gram.Model.Grammar Gram.Model.Parser Gram.Model.ParserPost Gram.Proofs.ContractProofs Gram.Proofs.PanicProofs Gram.Proofs.PackratProofs.
 Require Import Gram.Model.ModelB Gram.Spec.ScopeSpec Gram.Proofs.ScopedProofs Gram.Proofs.ScopeStore.
+Require Gram.Proofs.TcSoundHoles Gram.Proofs.TcBounds.
 
 Theorem C14_parse_terminates : forall toks memo ctx, fst (fst (parse_top toks memo ctx)) <> POutOfFuel.
 Proof. exact parse_top_within_fuel. Qed.
@@ -78,3 +79,20 @@ Theorem C14_lookup_out_of_bounds_D19 : ltac:(let T := type of CE.tcB_lookup_out_
 Proof. exact CE.tcB_lookup_out_of_bounds. Qed.
 Check C14_lookup_out_of_bounds_D19 : _ /\ length CE.D2 = 2 /\ nth_error CE.D2 2 = None /\ _ /\ _ = None.
 Print Assumptions C14_lookup_out_of_bounds_D19.
+
+(* THE CHECKER STAGE (Proofs/TcBounds.v): for every program accepted by parse(), checked from the store the driver hands
+   over, whenever neither instrumented event occurs (hooks H1 / H3 silent: `tcN` answers) the run performs NO out-of-range
+   context lookup - neither in the typing context (the implementation's panic site in the variable rule) nor in the
+   definitions context of the normaliser (where the recorded panic D19 happens): the copy `tcK` in which such a lookup
+   aborts returns the same result. The resolver's output satisfies the hole-scoping invariant (`sresolve_wsM`). *)
+Theorem C14_checker_lookups_in_bounds_when_hooks_are_silent : forall toks tree t ns f r,
+  syntax_tree toks = Some tree -> fst (fst (parse_top toks true [])) = POk t ns ->
+  TcSoundHoles.tcN f (repeat None (TcBounds.nholes_of tree)) [] [] t = Some r ->
+  tcB f (repeat None (TcBounds.nholes_of tree)) [] [] t = Some r /\ TcBounds.tcK f (repeat None (TcBounds.nholes_of tree)) [] [] t = Some r.
+Proof. exact TcBounds.checker_lookups_in_bounds. Qed.
+Check C14_checker_lookups_in_bounds_when_hooks_are_silent : forall toks tree t ns f r,
+  syntax_tree toks = Some tree -> fst (fst (parse_top toks true [])) = POk t ns ->
+  TcSoundHoles.tcN f (repeat None (TcBounds.nholes_of tree)) [] [] t = Some r ->
+  tcB f (repeat None (TcBounds.nholes_of tree)) [] [] t = Some r /\ TcBounds.tcK f (repeat None (TcBounds.nholes_of tree)) [] [] t = Some r.
+Print Assumptions C14_checker_lookups_in_bounds_when_hooks_are_silent.
+
